@@ -967,7 +967,6 @@ theorem kfDeclSilent_region (lhs : T) (init : TExpr) (h : kfDeclSilent lhs init 
          cases lhs <;> simp only [tag, reduceCtorEq] at hl
          cases it <;> simp only [tag, reduceCtorEq] at hi
          rename_i wl cl wi ci
-         simp only [hl, hi] at h3 h5
          cases wl <;> cases wi <;> cases cl <;> cases ci <;>
            simp_all [equalUpToConstness, promoteWidth, promoteConstness, width, isConst, tag] <;>
            omega)
@@ -978,7 +977,7 @@ theorem declareClassicalHelper_ok (sym : SymbolIdResult) (v : Option TExpr) (c c
   unfold declareClassicalHelper at h
   cases v with
   | none =>
-    simp only [M.pure_bind_ok, M.pure_ok, Prod.mk.injEq] at h
+    simp only [M.pure_ok, Prod.mk.injEq] at h
     exact ⟨h.1, by rw [h.2]⟩
   | some init =>
     simp only at h
@@ -988,7 +987,7 @@ theorem declareClassicalHelper_ok (sym : SymbolIdResult) (v : Option TExpr) (c c
       | ok id =>
         simp only [insertConstValue, M.modify_bind_ok, M.pure_ok, Prod.mk.injEq] at h
         exact ⟨h.1, by rw [h.2]⟩
-    · simp only [M.pure_bind_ok, M.pure_ok, Prod.mk.injEq] at h
+    · simp only [M.pure_ok, Prod.mk.injEq] at h
       exact ⟨h.1, by rw [h.2]⟩
 
 theorem insertError_ok (k : SemanticErrorKind) (sp : Ast.Span) (c c' : Ctx) (u : Unit)
@@ -1080,6 +1079,145 @@ theorem decl_decision_partial (fuel : Nat) (span : Ast.Span) (st : Ast.ScalarTyp
         · rw [if_neg hc] at h4; exact errCase h4
       | _ => exact otherCase rfl h4
 
+/-! ## Part 3 — downward conversions -/
+
+/-- the scalar kinds of the property (a `bit` and a bit register are the same kind) -/
+inductive Kind | int | uint | float | complex | angle | bit | bool | duration | stretch
+  deriving DecidableEq, Repr
+
+def kindOf : T → Option Kind
+  | .int .. => some .int | .uint .. => some .uint | .float .. => some .float
+  | .complex .. => some .complex | .angle .. => some .angle | .bit _ => some .bit
+  | .bitArray .. => some .bit | .boolT _ => some .bool | .duration _ => some .duration
+  | .stretch _ => some .stretch
+  | _ => none
+
+/-- position in the numeric tower `int, uint < float < complex` -/
+def towerRank : Kind → Option Nat
+  | .int | .uint => some 0 | .float => some 1 | .complex => some 2 | _ => none
+
+/-- **a conversion `value → target` that changes kind downwards**: down the numeric tower
+(float→int, complex→real), or between different kinds one of which is bit, bool, duration, stretch
+or angle -/
+def DownKind (target value : T) : Bool :=
+  match kindOf target, kindOf value with
+  | some kt, some kv =>
+    (match towerRank kt, towerRank kv with
+      | some a, some b => decide (a < b)
+      | _, _ => false) ||
+    (kt != kv && ((towerRank kt).isNone || (towerRank kv).isNone))
+  | _, _ => false
+
+set_option maxHeartbeats 4000000 in
+theorem downKind_facts (t v : T) (h : DownKind t v = true) :
+    equalUpToConstness t v = false ∧ Types.canCastLiteral t v = false ∧
+    equalUpToConstness (promoteTypesNotEqual t v) t = false ∧
+    (promoteTypesNotEqual t v = T.void ∨ promoteTypesNotEqual t v = v) ∧
+    promoteTypes t v ≠ t ∧ equalUpToDims v t = false ∧ v ≠ t ∧ tag t ≠ tag v := by
+  cases t <;> cases v <;> simp [DownKind, kindOf, towerRank] at h <;>
+    simp [equalUpToConstness, Types.canCastLiteral, equalBaseType, tag, promoteTypesNotEqual,
+      promoteTypeWidth, promoteBaseType, promoteTypes, equalUpToDims, numDims, equalUpToShape,
+      Dims.numDims]
+
+/-- the condition under which the declaration code inserts a cast -/
+def declCastCond (lhs : T) (i : TExpr) : Bool :=
+  match i.expression with
+  | .literal lit => Sema.canCastLiteral lhs i.getType lit
+  | _ => equalUpToConstness (promoteTypesNotEqual lhs i.getType) lhs
+
+/-- the condition under which the declaration code logs `IncompatibleTypesError` -/
+def declErrCond (lhs : T) (i : TExpr) : Bool :=
+  match i.expression with
+  | .literal lit => !Sema.canCastLiteral lhs i.getType lit
+  | _ => !equalUpToConstness (promoteTypesNotEqual lhs i.getType) lhs &&
+      (decide (promoteTypesNotEqual lhs i.getType = T.void) ||
+        decide (promoteTypesNotEqual lhs i.getType = i.getType))
+
+/-- the four outcomes of the declaration code, with their conditions -/
+def DeclTable (lhsType : T) (i : TExpr) (sym : SymbolIdResult) (span : Ast.Span) (stmt : Stmt)
+    (c' : Ctx) : Prop :=
+  (equalUpToConstness lhsType i.getType = true ∧ stmt = .declareClassical sym (some i)) ∨
+  (equalUpToConstness lhsType i.getType = false ∧ declCastCond lhsType i = true ∧
+    stmt = .declareClassical sym (some (castToTexpr i lhsType))) ∨
+  (equalUpToConstness lhsType i.getType = false ∧ declErrCond lhsType i = true ∧
+    stmt = .declareClassical sym (some i) ∧ LoggedLast .incompatibleTypesError span c') ∨
+  (kfDeclSilent lhsType i = true ∧ stmt = .declareClassical sym (some i))
+
+/-- **the declaration decision table, exactly.** -/
+theorem decl_decision_table (fuel : Nat) (span : Ast.Span) (st : Ast.ScalarType) (constToken : Bool)
+    (name : Ast.Name) (expr : Option Ast.Expr) (c c' : Ctx) (stmt : Stmt)
+    (h : (classicalDeclarationStatementToAsgStmt (fuel + 1) span false (some st) constToken
+      (some name) expr).run c = .ok (stmt, c')) :
+    ∃ lhsType c1 init c2 sym,
+      (scalarTypeToType st constToken).run c = .ok (lhsType, c1) ∧
+      (exprToAsgTexpr fuel expr).run c1 = .ok (init, c2) ∧
+      ∀ i, init = some i → DeclTable lhsType i sym span stmt c' := by
+  simp only [StateT.run, classicalDeclarationStatementToAsgStmt, Bool.false_eq_true, if_false,
+    unwrap, M.bind_ok, M.pure_ok, Prod.mk.injEq, exists2_eq] at h
+  obtain ⟨lhsType, c1, h1, init, c2, h2, sym, c3, h3, h4⟩ := h
+  refine ⟨lhsType, c1, init, c2, sym, h1, h2, ?_⟩
+  intro i hi
+  subst hi
+  simp only at h4
+  by_cases he : equalUpToConstness lhsType i.getType = true
+  · rw [if_pos he] at h4
+    simp only [M.pure_ok, Prod.mk.injEq] at h4
+    exact .inl ⟨he, h4.1⟩
+  · rw [if_neg he] at h4
+    have he' : equalUpToConstness lhsType i.getType = false := by simpa using he
+    have errCase : ∀ {cX : Ctx}, (do insertError .incompatibleTypesError span
+                                     declareClassicalHelper sym (some i)) cX = .ok (stmt, c') →
+        stmt = .declareClassical sym (some i) ∧ LoggedLast .incompatibleTypesError span c' := by
+      intro cX hh
+      simp only [M.bind_ok] at hh
+      obtain ⟨u, cY, e1, e2⟩ := hh
+      have := insertError_ok _ _ _ _ _ e1
+      obtain ⟨hs, herr⟩ := declareClassicalHelper_ok _ _ _ _ _ e2
+      refine ⟨hs, ⟨cX.semanticErrors, ?_⟩⟩
+      rw [herr, this]
+    have otherCase : isLiteralExpr i = false →
+        declCastCond lhsType i = equalUpToConstness (promoteTypesNotEqual lhsType i.getType) lhsType →
+        declErrCond lhsType i = (!equalUpToConstness (promoteTypesNotEqual lhsType i.getType) lhsType &&
+          (decide (promoteTypesNotEqual lhsType i.getType = T.void) ||
+            decide (promoteTypesNotEqual lhsType i.getType = i.getType))) →
+        (if equalUpToConstness (promoteTypesNotEqual lhsType i.getType) lhsType = true then
+            declareClassicalHelper sym (some (castToTexpr i lhsType))
+          else
+            if (decide (promoteTypesNotEqual lhsType i.getType = T.void) ||
+                decide (promoteTypesNotEqual lhsType i.getType = i.getType)) = true then do
+              insertError SemanticErrorKind.incompatibleTypesError span
+              declareClassicalHelper sym (some i)
+            else declareClassicalHelper sym (some i)) c3 = .ok (stmt, c') →
+        DeclTable lhsType i sym span stmt c' := by
+      intro hnotlit hcc hec hh
+      by_cases hpe : equalUpToConstness (promoteTypesNotEqual lhsType i.getType) lhsType = true
+      · rw [if_pos hpe] at hh
+        exact .inr (.inl ⟨he', by rw [hcc, hpe], (declareClassicalHelper_ok _ _ _ _ _ hh).1⟩)
+      · rw [if_neg hpe] at hh
+        by_cases hsil : (decide (promoteTypesNotEqual lhsType i.getType = T.void) ||
+                decide (promoteTypesNotEqual lhsType i.getType = i.getType)) = true
+        · rw [if_pos hsil] at hh
+          obtain ⟨a, b⟩ := errCase hh
+          refine .inr (.inr (.inl ⟨he', ?_, a, b⟩))
+          rw [hec, hsil]; simp [hpe]
+        · rw [if_neg hsil] at hh
+          refine .inr (.inr (.inr ⟨?_, (declareClassicalHelper_ok _ _ _ _ _ hh).1⟩))
+          simp only [Bool.or_eq_true, decide_eq_true_eq, not_or] at hsil
+          simp [kfDeclSilent, he, hnotlit, hpe, hsil.1, hsil.2]
+    obtain ⟨e, t⟩ := i
+    cases e with
+    | literal lit =>
+      simp only [TExpr.expression] at h4
+      by_cases hc : Sema.canCastLiteral lhsType (TExpr.mk (.literal lit) t).getType lit = true
+      · rw [if_pos hc] at h4
+        exact .inr (.inl ⟨he', hc, (declareClassicalHelper_ok _ _ _ _ _ h4).1⟩)
+      · rw [if_neg hc] at h4
+        obtain ⟨a, b⟩ := errCase h4
+        refine .inr (.inr (.inl ⟨he', ?_, a, b⟩))
+        simp only [declErrCond, TExpr.expression]
+        simpa using hc
+    | _ => exact otherCase rfl rfl rfl h4
+
 /-! ### assignments -/
 
 def isIntLiteralExpr : TExpr → Bool
@@ -1092,6 +1230,13 @@ nothing for EVERY target type other than `uint` (`duration d; d = 1;`, `bool b; 
 def kfAssignIntLiteral (symT : T) (expr : TExpr) : Bool :=
   isIntLiteralExpr expr && (tag symT != .uint) && (expr.getType != symT) &&
   !equalUpToDims expr.getType symT
+
+/-- the condition under which the assignment code inserts a cast (given that the types differ and
+are not "equal up to dimensions") -/
+def assignCastCond (symT : T) (expr : TExpr) : Bool :=
+  match expr.expression with
+  | .literal (.int _ sign) => tag symT == .uint && sign
+  | _ => decide (promoteTypes symT expr.getType = symT)
 
 /-- `k` is the first diagnostic logged after `c0` -/
 def LoggedFirstSince (c0 : Ctx) (k : SemanticErrorKind) (span : Ast.Span) (c : Ctx) : Prop :=
@@ -1164,7 +1309,8 @@ theorem assign_decision_partial (fuel : Nat) (span : Ast.Span) (name : Ast.Ident
       (lookupSymbol name.text name.span).run c1 = .ok ((sym, symT), c2) ∧
       (sym.isOk = true → kfAssignIntLiteral symT expr = false →
         ∃ v, stmt = some (.assignment (.identifier sym) v) ∧
-        ((v = expr ∧ expr.getType = symT) ∨ v = castToTexpr expr symT ∨
+        ((v = expr ∧ expr.getType = symT) ∨
+        (v = castToTexpr expr symT ∧ expr.getType ≠ symT ∧ assignCastCond symT expr = true) ∨
         (v = expr ∧ ∃ k, (k = .incompatibleDimensionError ∨ k = .castError ∨
             k = .incompatibleTypesError) ∧ LoggedFirstSince c2 k span c'))) := by
   simp only [StateT.run, assignmentStmtToAsgStmt, M.bind_ok] at h
@@ -1185,7 +1331,8 @@ theorem assign_decision_partial (fuel : Nat) (span : Ast.Span) (name : Ast.Ident
           mutateConstCheck sym.isOk symT span
           pure (some (Stmt.assignment (LValue.identifier sym) expr))) c2 = .ok (stmt, c') →
       ∃ v, stmt = some (.assignment (.identifier sym) v) ∧
-        ((v = expr ∧ expr.getType = symT) ∨ v = castToTexpr expr symT ∨
+        ((v = expr ∧ expr.getType = symT) ∨
+        (v = castToTexpr expr symT ∧ expr.getType ≠ symT ∧ assignCastCond symT expr = true) ∨
         (v = expr ∧ ∃ k, (k = .incompatibleDimensionError ∨ k = .castError ∨
             k = .incompatibleTypesError) ∧ LoggedFirstSince c2 k span c')) := by
     intro k hk hh
@@ -1198,7 +1345,9 @@ theorem assign_decision_partial (fuel : Nat) (span : Ast.Span) (name : Ast.Ident
     · rw [if_pos hd] at h4
       exact logged _ (.inl rfl) h4
     · rw [if_neg hd] at h4
-      have general : (if promoteTypes symT expr.getType = symT then do
+      have hne' : expr.getType ≠ symT := by simpa using hne
+      have general : assignCastCond symT expr = decide (promoteTypes symT expr.getType = symT) →
+          (if promoteTypes symT expr.getType = symT then do
               let expr ← (pure (castToTexpr expr (promoteTypes symT expr.getType)) : M TExpr)
               mutateConstCheck sym.isOk symT span
               pure (some (Stmt.assignment (LValue.identifier sym) expr))
@@ -1208,13 +1357,14 @@ theorem assign_decision_partial (fuel : Nat) (span : Ast.Span) (name : Ast.Ident
               mutateConstCheck sym.isOk symT span
               pure (some (Stmt.assignment (LValue.identifier sym) expr))) c2 = .ok (stmt, c') →
           ∃ v, stmt = some (.assignment (.identifier sym) v) ∧
-            ((v = expr ∧ expr.getType = symT) ∨ v = castToTexpr expr symT ∨
+            ((v = expr ∧ expr.getType = symT) ∨
+            (v = castToTexpr expr symT ∧ expr.getType ≠ symT ∧ assignCastCond symT expr = true) ∨
             (v = expr ∧ ∃ k, (k = .incompatibleDimensionError ∨ k = .castError ∨
                 k = .incompatibleTypesError) ∧ LoggedFirstSince c2 k span c')) := by
-        intro hh
+        intro hcc hh
         by_cases hp : promoteTypes symT expr.getType = symT
         · rw [if_pos hp, hp] at hh
-          exact ⟨_, direct _ hh, .inr (.inl rfl)⟩
+          exact ⟨_, direct _ hh, .inr (.inl ⟨rfl, hne', by rw [hcc]; simpa using hp⟩)⟩
         · rw [if_neg hp] at hh
           exact logged _ (.inr (.inr rfl)) hh
       obtain ⟨e, t⟩ := expr
@@ -1229,17 +1379,329 @@ theorem assign_decision_partial (fuel : Nat) (span : Ast.Span) (name : Ast.Ident
             cases sign with
             | true =>
               simp only [if_true] at h4
-              exact ⟨_, direct _ h4, .inr (.inl rfl)⟩
+              exact ⟨_, direct _ h4, .inr (.inl ⟨rfl, hne', rfl⟩)⟩
             | false =>
               simp only [Bool.false_eq_true, if_false] at h4
               exact logged _ (.inr (.inl rfl)) h4
           | _ =>
             exfalso
             simp [kfAssignIntLiteral, isIntLiteralExpr, tag, hne, hd] at hk
-        | _ => exact general h4
-      | _ => exact general h4
+        | _ => exact general rfl h4
+      | _ => exact general rfl h4
   · rw [if_neg hne] at h4
     simp only [bne_iff_ne, ne_eq, Decidable.not_not] at hne
     exact ⟨_, direct _ h4, .inl ⟨rfl, hne⟩⟩
+
+/-! ### no silent downward conversion -/
+
+/-- a negative integer literal stored into an unsigned target -/
+def NegLitToUint (target : T) (value : TExpr) : Bool :=
+  tag target == .uint &&
+  match value with
+  | .mk (.literal (.int _ sign)) _ => !sign
+  | _ => false
+
+/-- a width narrowing (same kind, target narrower than the value or the value of unspecified
+width) of a NON-constant value -/
+def NarrowNonConst (target value : T) : Bool :=
+  tag target == tag value &&
+  (tag target == .int || tag target == .uint || tag target == .float || tag target == .angle ||
+    tag target == .complex) &&
+  !isConst value &&
+  match width target, width value with
+  | some _, none => true
+  | some a, some b => decide (a < b)
+  | _, _ => false
+
+set_option maxHeartbeats 4000000 in
+theorem narrow_facts (t v : T) (h : NarrowNonConst t v = true) :
+    equalUpToConstness t v = false ∧
+    equalUpToConstness (promoteTypesNotEqual t v) t = false ∧
+    (promoteTypesNotEqual t v = T.void ∨ promoteTypesNotEqual t v = v) ∧
+    isConst v = false ∧ promoteTypes t v ≠ t ∧ equalUpToDims v t = false ∧ v ≠ t := by
+  cases t <;> cases v <;> simp [NarrowNonConst, tag] at h <;>
+    (rename_i wt ct wv cv
+     cases wt <;> cases wv <;> simp [width] at h <;>
+     simp_all [equalUpToConstness, tag, promoteTypesNotEqual, promoteTypeWidth, promoteBaseType,
+        promoteTypes, equalUpToDims, numDims, equalUpToShape, width, promoteWidth,
+        promoteConstness, isConst] <;> omega)
+
+theorem literalType_const {l : Literal} {t : T} (h : literalType l = some t) : isConst t = true := by
+  cases l <;> simp [literalType] at h <;> subst h <;> rfl
+
+theorem isLiteralExpr_iff (e : TExpr) : isLiteralExpr e = true ↔ ∃ l t, e = .mk (.literal l) t := by
+  obtain ⟨x, t⟩ := e
+  cases x <;> simp [isLiteralExpr]
+
+/-- what well-typedness says about a literal value -/
+theorem wt_literal_facts {S : List Sym} {e : TExpr} (hwt : WT S e) (hl : isLiteralExpr e = true) :
+    isConst e.getType = true ∧
+    (∀ n s t, e = .mk (.literal (.int n s)) t → t = .int (some 128) true) := by
+  obtain ⟨l, t, rfl⟩ := (isLiteralExpr_iff e).mp hl
+  have := wt_literal_type hwt
+  refine ⟨literalType_const this, ?_⟩
+  intro n s t' he
+  cases he
+  simpa [literalType] using this.symm
+
+/-- **C08, no silent downward conversion (declarations) — full at the level of types.**
+If the initializer's type is a downward change of kind w.r.t. the declared type, or the initializer
+is a negative integer literal for an unsigned target, or it is a non-constant value wider than the
+target: the initializer is stored unchanged AND `IncompatibleTypesError` is logged at the
+declaration.  (The exception is not in this decision but in the literal's TYPE: an imaginary integer
+literal is typed `int[64]`, see `witness_imaginary_int_downward`.) -/
+theorem no_silent_downward_decl (fuel : Nat) (span : Ast.Span) (st : Ast.ScalarType)
+    (constToken : Bool) (name : Ast.Name) (expr : Option Ast.Expr) (c c' : Ctx) (stmt : Stmt)
+    (h : (classicalDeclarationStatementToAsgStmt (fuel + 1) span false (some st) constToken
+      (some name) expr).run c = .ok (stmt, c')) :
+    ∃ lhsType c1 init c2 sym,
+      (scalarTypeToType st constToken).run c = .ok (lhsType, c1) ∧
+      (exprToAsgTexpr fuel expr).run c1 = .ok (init, c2) ∧
+      ∀ i, init = some i →
+        (DownKind lhsType i.getType = true ∨ NegLitToUint lhsType i = true ∨
+          NarrowNonConst lhsType i.getType = true) →
+        stmt = .declareClassical sym (some i) ∧ LoggedLast .incompatibleTypesError span c' := by
+  obtain ⟨lhsType, c1, init, c2, sym, h1, h2, htab⟩ :=
+    decl_decision_table fuel span st constToken name expr c c' stmt h
+  refine ⟨lhsType, c1, init, c2, sym, h1, h2, fun i hi hdown => ?_⟩
+  subst hi
+  have hwt : WT c2.symbolTable.all i := well_typed_final fuel expr c1 c2 i h2
+  have hlit := fun hl => wt_literal_facts hwt hl
+  rcases htab i rfl with ⟨he, -⟩ | ⟨he, hc, -⟩ | ⟨-, -, hs, hl⟩ | ⟨hk, -⟩
+  · -- stored directly: the types are equal up to const-ness
+    exfalso
+    rcases hdown with hd | hd | hd
+    · rw [(downKind_facts _ _ hd).1] at he; cases he
+    · obtain ⟨e, t⟩ := i
+      cases e <;> simp [NegLitToUint] at hd
+      rename_i lit
+      cases lit <;> simp at hd
+      rename_i n sgn
+      have := (hlit rfl).2 n sgn t rfl
+      subst this
+      cases lhsType <;> simp [tag] at hd
+      simp [equalUpToConstness, tag, TExpr.getType] at he
+    · rw [(narrow_facts _ _ hd).1] at he; cases he
+  · -- a cast was inserted
+    exfalso
+    rcases hdown with hd | hd | hd
+    · have f := downKind_facts _ _ hd
+      obtain ⟨e, t⟩ := i
+      cases e with
+      | literal lit =>
+        simp only [declCastCond, TExpr.expression, Sema.canCastLiteral] at hc
+        split at hc
+        · rename_i n sgn htag
+          have := (hlit rfl).2 n sgn t rfl
+          subst this
+          cases lhsType <;> simp [tag] at htag
+          simp [DownKind, kindOf, towerRank, TExpr.getType] at hd
+        · rw [f.2.1] at hc; cases hc
+      | _ =>
+        simp only [declCastCond, TExpr.expression] at hc
+        rw [f.2.2.1] at hc; cases hc
+    · obtain ⟨e, t⟩ := i
+      cases e <;> simp [NegLitToUint] at hd
+      rename_i lit
+      cases lit <;> simp at hd
+      rename_i n sgn
+      obtain ⟨htag, hsgn⟩ := hd
+      subst hsgn
+      cases lhsType <;> simp [tag] at htag
+      simp [declCastCond, TExpr.expression, Sema.canCastLiteral, tag] at hc
+    · have f := narrow_facts _ _ hd
+      by_cases hl : isLiteralExpr i = true
+      · have := (hlit hl).1
+        rw [f.2.2.2.1] at this; cases this
+      · obtain ⟨e, t⟩ := i
+        cases e with
+        | literal lit => exact hl rfl
+        | _ =>
+          simp only [declCastCond, TExpr.expression] at hc
+          rw [f.2.1] at hc; cases hc
+  · exact ⟨hs, hl⟩
+  · -- the silent region: same kind, const value
+    exfalso
+    obtain ⟨hnl, htag, -, -, hci, -⟩ := kfDeclSilent_region _ _ hk
+    rcases hdown with hd | hd | hd
+    · exact (downKind_facts _ _ hd).2.2.2.2.2.2.2 htag
+    · obtain ⟨e, t⟩ := i
+      cases e <;> simp [NegLitToUint] at hd
+      simp [isLiteralExpr] at hnl
+    · rw [(narrow_facts _ _ hd).2.2.2.1] at hci; cases hci
+
+/-- **C08, no silent downward conversion (assignments)** — outside `kfAssignIntLiteral`. -/
+theorem no_silent_downward_assign_partial (fuel : Nat) (span : Ast.Span) (name : Ast.Identifier)
+    (rhs : Option Ast.Expr) (ii : Option Ast.IndexedIdentifier) (c c' : Ctx) (stmt : Option Stmt)
+    (h : (assignmentStmtToAsgStmt (fuel + 1) span (some name) rhs ii).run c = .ok (stmt, c')) :
+    ∃ expr c1 sym symT c2,
+      (exprToAsgTexpr fuel rhs).run c = .ok (some expr, c1) ∧
+      (lookupSymbol name.text name.span).run c1 = .ok ((sym, symT), c2) ∧
+      (sym.isOk = true → kfAssignIntLiteral symT expr = false →
+        (DownKind symT expr.getType = true ∨ NegLitToUint symT expr = true ∨
+          NarrowNonConst symT expr.getType = true) →
+        stmt = some (.assignment (.identifier sym) expr) ∧
+        ∃ k, (k = .incompatibleDimensionError ∨ k = .castError ∨ k = .incompatibleTypesError) ∧
+          LoggedFirstSince c2 k span c') := by
+  obtain ⟨expr, c1, sym, symT, c2, h1, h2, hdec⟩ :=
+    assign_decision_partial fuel span name rhs ii c c' stmt h
+  refine ⟨expr, c1, sym, symT, c2, h1, h2, fun hok hk hdown => ?_⟩
+  have hwt : WT c1.symbolTable.all expr := well_typed_final fuel rhs c c1 expr h1
+  have hlit := fun hl => wt_literal_facts hwt hl
+  obtain ⟨v, hv, hcases⟩ := hdec hok hk
+  have hdims : equalUpToDims expr.getType symT = false ∧ expr.getType ≠ symT := by
+    rcases hdown with hd | hd | hd
+    · exact ⟨(downKind_facts _ _ hd).2.2.2.2.2.1, (downKind_facts _ _ hd).2.2.2.2.2.2.1⟩
+    · obtain ⟨e, t⟩ := expr
+      cases e <;> simp [NegLitToUint] at hd
+      rename_i lit
+      cases lit <;> simp at hd
+      rename_i n sgn
+      have := (hlit rfl).2 n sgn t rfl
+      subst this
+      cases symT <;> simp [tag] at hd
+      simp [equalUpToDims, TExpr.getType, numDims, equalUpToShape, tag]
+    · exact ⟨(narrow_facts _ _ hd).2.2.2.2.2.1, (narrow_facts _ _ hd).2.2.2.2.2.2⟩
+  rcases hcases with ⟨-, he⟩ | ⟨-, -, hc⟩ | ⟨rfl, k, hkk, hl⟩
+  · exact absurd he hdims.2
+  · exfalso
+    rcases hdown with hd | hd | hd
+    · have f := downKind_facts _ _ hd
+      obtain ⟨e, t⟩ := expr
+      cases e with
+      | literal lit =>
+        cases lit with
+        | int n sgn =>
+          have := (hlit rfl).2 n sgn t rfl
+          subst this
+          simp only [assignCastCond, TExpr.expression, Bool.and_eq_true, beq_iff_eq] at hc
+          cases symT <;> simp [tag] at hc
+          simp [DownKind, kindOf, towerRank, TExpr.getType] at hd
+        | _ =>
+          simp only [assignCastCond, TExpr.expression, decide_eq_true_eq] at hc
+          exact f.2.2.2.2.1 hc
+      | _ =>
+        simp only [assignCastCond, TExpr.expression, decide_eq_true_eq] at hc
+        exact f.2.2.2.2.1 hc
+    · obtain ⟨e, t⟩ := expr
+      cases e <;> simp [NegLitToUint] at hd
+      rename_i lit
+      cases lit <;> simp at hd
+      obtain ⟨-, hsgn⟩ := hd
+      subst hsgn
+      simp [assignCastCond, TExpr.expression] at hc
+    · have f := narrow_facts _ _ hd
+      by_cases hl : isLiteralExpr expr = true
+      · have := (hlit hl).1
+        rw [f.2.2.2.1] at this; cases this
+      · obtain ⟨e, t⟩ := expr
+        cases e with
+        | literal lit => exact hl rfl
+        | _ =>
+          simp only [assignCastCond, TExpr.expression, decide_eq_true_eq] at hc
+          exact f.2.2.2.2.1 hc
+  · exact ⟨hv, k, hkk, hl⟩
+
+/-! ## witnesses (closed programs: the I5 dump of the named source, evaluated by the kernel) -/
+
+def isCastExpr : TExpr → Bool
+  | .mk (.cast _ _) _ => true
+  | _ => false
+
+/-- per statement: for a declaration with initializer / an assignment, the type of the stored
+value and whether it is a cast -/
+def stmtObs : Stmt → Option (T × Bool)
+  | .declareClassical _ (some v) => some (v.getType, isCastExpr v)
+  | .assignment _ v => some (v.getType, isCastExpr v)
+  | _ => none
+
+/-- what a witness observes: the statements' stored values, the types of the user's symbols
+(ids 7, 8, …), and all diagnostics -/
+def observe (p : Ast.Program) : Option (List (Option (T × Bool)) × List T × List SemErr) :=
+  match analyze p with
+  | .ok c => some (c.program.map stmtObs, (c.symbolTable.all.drop 7).map (·.ty), c.semanticErrors)
+  | .error _ => none
+
+/-- `const int n = 3; int[8] y = n;` -/
+def progF18a : Ast.Program :=
+  ⟨⟨0, 30⟩, [(.classicalDeclarationStatement ⟨0, 16⟩ false (some (.mk ⟨6, 9⟩ .int none none)) true (some ⟨⟨10, 11⟩, "n"⟩) (some (.literal ⟨⟨14, 15⟩, .intNumber "3" (some 3)⟩))), (.classicalDeclarationStatement ⟨17, 30⟩ false (some (.mk ⟨17, 23⟩ .int (some (.mk ⟨20, 23⟩ (some (.literal ⟨⟨21, 22⟩, .intNumber "8" (some 8)⟩)))) none)) false (some ⟨⟨24, 25⟩, "y"⟩) (some (.identifier ⟨⟨28, 29⟩, "n"⟩)))]⟩
+
+/-- `int[8] y = 1+2;` -/
+def progF18b : Ast.Program :=
+  ⟨⟨0, 15⟩, [(.classicalDeclarationStatement ⟨0, 15⟩ false (some (.mk ⟨0, 6⟩ .int (some (.mk ⟨3, 6⟩ (some (.literal ⟨⟨4, 5⟩, .intNumber "8" (some 8)⟩)))) none)) false (some ⟨⟨7, 8⟩, "y"⟩) (some (.binExpr ⟨11, 14⟩ (some (.arithOp .add)) (some (.literal ⟨⟨11, 12⟩, .intNumber "1" (some 1)⟩)) (some (.literal ⟨⟨13, 14⟩, .intNumber "2" (some 2)⟩)))))]⟩
+
+/-- `float f = 2im;` -/
+def progF18c : Ast.Program :=
+  ⟨⟨0, 14⟩, [(.classicalDeclarationStatement ⟨0, 14⟩ false (some (.mk ⟨0, 5⟩ .float none none)) false (some ⟨⟨6, 7⟩, "f"⟩) (some (.timingLiteral ⟨10, 13⟩ (some .imaginary) (some "im") (some ⟨⟨10, 11⟩, .intNumber "2" (some 2)⟩))))]⟩
+
+/-- `int x = 2im;` -/
+def progF18c2 : Ast.Program :=
+  ⟨⟨0, 12⟩, [(.classicalDeclarationStatement ⟨0, 12⟩ false (some (.mk ⟨0, 3⟩ .int none none)) false (some ⟨⟨4, 5⟩, "x"⟩) (some (.timingLiteral ⟨8, 11⟩ (some .imaginary) (some "im") (some ⟨⟨8, 9⟩, .intNumber "2" (some 2)⟩))))]⟩
+
+/-- `duration d; d = 1;` -/
+def progF18d : Ast.Program :=
+  ⟨⟨0, 18⟩, [(.classicalDeclarationStatement ⟨0, 11⟩ false (some (.mk ⟨0, 8⟩ .duration none none)) false (some ⟨⟨9, 10⟩, "d"⟩) none), (.assignmentStmt ⟨12, 18⟩ (some ⟨⟨12, 13⟩, "d"⟩) (some (.literal ⟨⟨16, 17⟩, .intNumber "1" (some 1)⟩)) none)]⟩
+
+/-- `bool b; b = -1;` -/
+def progF18d2 : Ast.Program :=
+  ⟨⟨0, 15⟩, [(.classicalDeclarationStatement ⟨0, 7⟩ false (some (.mk ⟨0, 4⟩ .bool none none)) false (some ⟨⟨5, 6⟩, "b"⟩) none), (.assignmentStmt ⟨8, 15⟩ (some ⟨⟨8, 9⟩, "b"⟩) (some (.prefixExpr ⟨12, 14⟩ (some .neg) (some (.literal ⟨⟨13, 14⟩, .intNumber "1" (some 1)⟩)))) none)]⟩
+
+/-- `int[8] y = 2.5;` -/
+def progCtl1 : Ast.Program :=
+  ⟨⟨0, 15⟩, [(.classicalDeclarationStatement ⟨0, 15⟩ false (some (.mk ⟨0, 6⟩ .int (some (.mk ⟨3, 6⟩ (some (.literal ⟨⟨4, 5⟩, .intNumber "8" (some 8)⟩)))) none)) false (some ⟨⟨7, 8⟩, "y"⟩) (some (.literal ⟨⟨11, 14⟩, .floatNumber "2.5" (some "2.5")⟩)))]⟩
+
+/-- `uint x = -1;` -/
+def progCtl2 : Ast.Program :=
+  ⟨⟨0, 12⟩, [(.classicalDeclarationStatement ⟨0, 12⟩ false (some (.mk ⟨0, 4⟩ .uint none none)) false (some ⟨⟨5, 6⟩, "x"⟩) (some (.prefixExpr ⟨9, 11⟩ (some .neg) (some (.literal ⟨⟨10, 11⟩, .intNumber "1" (some 1)⟩)))))]⟩
+
+/-- **F18a** `const int n = 3; int[8] y = n;`: `y : int[8]` is initialised with the identifier of
+type `const int` unchanged, no cast, no diagnostic; the guard holds -/
+theorem witness_const_identifier_narrowed :
+    observe progF18a = some ([some (.int none true, true), some (.int none true, false)],
+      [.int none true, .int (some 8) false], []) ∧
+    kfDeclSilent (.int (some 8) false) (.mk (.identifier (.ok 7)) (.int none true)) = true := by
+  constructor
+  · decide +kernel
+  · decide
+
+/-- **F18b** `int[8] y = 1+2;`: the sum has type `const int[128]`, stored unchanged, nothing logged -/
+theorem witness_arithmetic_initializer_narrowed :
+    observe progF18b = some ([some (.int (some 128) true, false)], [.int (some 8) false], []) ∧
+    kfDeclSilent (.int (some 8) false)
+      (.mk (.binaryExpr (.arithOp .add) (intLiteralToTexpr 1 true) (intLiteralToTexpr 2 true))
+        (.int (some 128) true)) = true := by
+  constructor
+  · decide +kernel
+  · decide
+
+/-- **F18c** `float f = 2im;` and `int x = 2im;`: an imaginary integer literal is typed
+`const int[64]`, so the literal-cast table accepts it for `float` and for `int` targets: a cast is
+inserted, nothing logged — a complex→real conversion accepted silently.  (`2.0im` is
+`complex[float[64]]` and is rejected.) -/
+theorem witness_imaginary_int_downward :
+    observe progF18c = some ([some (.float none false, true)], [.float none false], []) ∧
+    observe progF18c2 = some ([some (.int none false, true)], [.int none false], []) := by
+  constructor <;> decide +kernel
+
+/-- **F18d** `duration d; d = 1;` and `bool b; b = -1;`: an integer literal is stored unchanged
+into a target of any non-`uint` type, nothing logged; the guard holds -/
+theorem witness_int_literal_assigned :
+    observe progF18d = some ([none, some (.int (some 128) true, false)], [.duration false], []) ∧
+    observe progF18d2 = some ([none, some (.int (some 128) true, false)], [.boolT false], []) ∧
+    kfAssignIntLiteral (.duration false) (intLiteralToTexpr 1 true) = true ∧
+    kfAssignIntLiteral (.boolT false) (intLiteralToTexpr 1 false) = true := by
+  refine ⟨?_, ?_, ?_, ?_⟩
+  · decide +kernel
+  · decide +kernel
+  · decide
+  · decide
+
+/-- controls: `int[8] y = 2.5;` and `uint x = -1;` are stored unchanged WITH the diagnostic -/
+theorem witness_downward_diagnosed :
+    observe progCtl1 = some ([some (.float (some 64) true, false)], [.int (some 8) false],
+      [⟨.incompatibleTypesError, 0, 15⟩]) ∧
+    observe progCtl2 = some ([some (.int (some 128) true, false)], [.uint none false],
+      [⟨.incompatibleTypesError, 0, 12⟩]) := by
+  constructor <;> decide +kernel
 
 end Oq3.Props.C08
